@@ -1,4 +1,5 @@
 import ScyllaVerif.Proofs.Decode
+import ScyllaVerif.Proofs.CustomNP
 /-
 C08 — every decoder of the model satisfies the allocation accounting predicate `AllocW` (Proofs/Decode.lean).
 -/
@@ -169,6 +170,9 @@ theorem aw_readStringMultimap (hA : 1 ≤ A) : AllocW 2 A (B + U16 + U16) readSt
 theorem aw_zero {m : M α} (h : AllocW w A B m) : AllocW 0 A B m :=
   aw_mono h (Nat.zero_le _) (Nat.le_refl _) (Nat.le_refl _)
 
+theorem aw_getUni : AllocW 0 A B getUni := by
+  intro s; simp only [getUni]; exact ⟨by omega, by omega, by omega, List.suffix_refl _⟩
+
 theorem aw_remaining : AllocW 0 A B remaining := by
   intro s; simp only [remaining]; exact ⟨by omega, by omega, by omega, List.suffix_refl _⟩
 
@@ -201,8 +205,13 @@ theorem aw_deserType (hA : 1 ≤ A) : ∀ fuel, AllocW 2 A B (deserType fuel)
     unfold deserType
     refine aw_bind0 hA (aw_noteDepth _ (by unfold DEPTH_BOUND; omega)) (fun _ => aw_bindL hA (aw_tag _ (aw_readShort hA)) (fun id => ?_))
     split
-    · refine aw_bind0 hA (aw_tag _ (aw_zero (aw_readString hA))) (fun str => ?_)
-      split <;> aw0
+    · refine aw_bind0 hA (aw_tag _ (aw_zero (aw_readString hA))) (fun str => aw_bind0 hA aw_getUni (fun uni => ?_))
+      have hnp := customParse_np uni str
+      split
+      · aw0
+      · aw0
+      · rename_i site he
+        exact absurd he (hnp site)
     · aw0
     · aw0
     · aw0
